@@ -59,7 +59,8 @@ typedef struct BindFormat {
 typedef struct BindExtra { const char *name; uint64_t (*fn)(uint64_t, uint64_t, uint64_t, uint64_t); unsigned nparams; } BindExtra;
 /* new API whose only pointer parameter is the PDU of a known format (first parameter), the others being integers: called on a
  * well-formed PDU of that format */
-typedef struct BindExtraP { const char *name; uint64_t (*fn)(void *, uint64_t, uint64_t, uint64_t); unsigned nparams; const char *fmt; int is_const; } BindExtraP;
+/* (fmt2: the function takes a second PDU pointer, of that format, as its second parameter; the thunk receives it in its first integer) */
+typedef struct BindExtraP { const char *name; uint64_t (*fn)(void *, uint64_t, uint64_t, uint64_t); unsigned nparams; const char *fmt; int is_const; const char *fmt2; int is_const2; } BindExtraP;
 extern const BindExtraP bind_extras_p[];
 extern const unsigned bind_nextras_p;
 extern const BindExtra bind_extras[];
